@@ -527,6 +527,10 @@ func runC14(c *Ctx) {
 						okBound = true
 					}
 				}
+				// len(row), the slice made with one slot per announced field
+				if x, ok := core.IsLenOf(cmp.Y); ok && row != nil && x == ssa.Value(row) && core.StripConv(row.Len) == asmFields {
+					okBound = true
+				}
 			}
 		}
 		R.Check(okBound, "C14.R5", "Read:loop-over-announced-fields", c.at(loop.Header.Instrs[0]), "the field loop runs once per announced field", "induction variable < field count", "the field loop's bound is not the announced field count")
